@@ -414,9 +414,9 @@ func checkMain(id, tier string) int {
 			openSet[k.ID] = k
 		}
 	}
-	timeout := 10000
+	timeout := 3000
 	if tier == "thorough" {
-		timeout = 60000
+		timeout = 10000
 	}
 	if v, ok := cfg.TimeoutMs[tier]; ok {
 		timeout = v
@@ -430,7 +430,7 @@ func checkMain(id, tier string) int {
 		patterns = append(patterns, p)
 	}
 	sort.Strings(patterns)
-	wi := WorkerInit{Overlay: ov.Files, Patterns: patterns, TimeoutMs: timeout, MaxInstrs: cfg.MaxInstrs, OpenKnown: open, Solver: os.Getenv("GOSYM_SOLVER")}
+	wi := WorkerInit{Overlay: ov.Files, Patterns: patterns, TimeoutMs: timeout, MaxInstrs: cfg.MaxInstrs, OpenKnown: open, Solver: os.Getenv("GOSYM_SOLVER"), WorkDir: work, StandaloneS: map[string]int{"quick": 30, "thorough": 300}[tier]}
 	initFile := filepath.Join(work, "worker_init.json")
 	wb, _ := json.Marshal(wi)
 	os.WriteFile(initFile, wb, 0o644)
@@ -662,17 +662,17 @@ func checkMain(id, tier string) int {
 	}
 	exit := 0
 	switch {
+	case len(violationLines) > 0:
+		exit = 1 // replay-confirmed violations take precedence over secondary engine noise
 	case len(engineErr) > 0:
 		exit = 3
-	case len(violationLines) > 0:
-		exit = 1
 	case len(inconclusive) > 0:
 		exit = 2
 	}
 	for _, l := range knownLines {
 		fmt.Println(l)
 	}
-	if exit == 1 || (len(violationLines) > 0 && exit == 3) {
+	if exit == 1 {
 		for _, l := range violationLines {
 			fmt.Println(l)
 		}
